@@ -1,7 +1,7 @@
 """C14 — bounces go back once and can neither loop nor be forged (decision table, sanitising)."""
 import itertools
 from qv.core import AnalysisBroken
-from qv.esp import Engine, Outcome, TOP, fs
+from qv.esp import Engine, Outcome, TOP, fs, ptr_add
 from qv.lib import QHooks
 from rules import qsend
 from rules.qsend import attach, g1
@@ -111,6 +111,124 @@ class AddBounceHooks(QHooks):
         return TOP
 
 
+class EnvelopeHooks(qsend.BounceHooks):
+    """injectbounce() with a concrete envelope sender: what reaches qmail_from / qmail_to"""
+    tracked = qsend.BounceHooks.tracked | frozenset(['G:sender', 'G:doublebounceto'])
+
+    def __init__(self, snd):
+        super().__init__()
+        self.snd = snd
+        self.envs = set()
+        self.opened = 0
+        self.getinfo = 0
+        self.trace = []
+        self.sa = None
+
+    def precise_arith(self, path):
+        return True
+
+    def site(self, inst, x, ok, detail, E, kill=True):
+        pass
+
+    def prim_getinfo(self, E, x, args):
+        self.getinfo += 1
+        sa = None
+        if args[0] is not TOP and len(args[0]) == 1:
+            (a,) = args[0]
+            if isinstance(a, tuple) and a[0] == '&':
+                sa = a[1]
+        if sa is None:
+            raise AnalysisBroken('injectbounce: the sender buffer handed to getinfo() is not an object address')
+        self.sa = sa
+        st = {sa + '.s': fs(('&', sa + '.s[0]')), sa + '.len': fs(len(self.snd) + 1)}
+        for i, ch in enumerate(self.snd + '\0'):
+            st['%s.s[%d]' % (sa, i)] = fs(ord(ch))
+        return [Outcome(ret=fs(0)), Outcome(ret=fs(1), sets=st)]
+
+    def cstr(self, E, v):
+        """the C string a pointer value denotes, or None"""
+        if v is TOP or len(v) != 1:
+            return None
+        (a,) = v
+        if isinstance(a, tuple) and a[0] == 'str':
+            return a[1]
+        if isinstance(a, tuple) and a[0] == '&':
+            out = ''
+            p = a
+            for _ in range(64):
+                b = E.get(p[1])
+                if b is TOP or len(b) != 1 or not isinstance(next(iter(b)), int):
+                    return None
+                c = next(iter(b))
+                if c == 0:
+                    return out
+                out += chr(c & 255)
+                p = ptr_add(p, 1)
+                if p is None:
+                    return None
+        return None
+
+    def prim_strcmp(self, E, x, args):
+        l, r = self.cstr(E, args[0]), self.cstr(E, args[1])
+        if l is None or r is None:
+            return [Outcome(ret=fs(0)), Outcome(ret=fs(1))]
+        return [Outcome(ret=fs(0 if l == r else (1 if l > r else -1)))]
+
+    def prim_strncmp(self, E, x, args):
+        l, r = self.cstr(E, args[0]), self.cstr(E, args[1])
+        n = next(iter(args[2])) if args[2] is not TOP and len(args[2]) == 1 else None
+        if l is None or r is None or not isinstance(n, int):
+            return [Outcome(ret=fs(0)), Outcome(ret=fs(1))]
+        l, r = l[:n], r[:n]
+        return [Outcome(ret=fs(0 if l == r else (1 if l > r else -1)))]
+
+    def prim_memcmp(self, E, x, args):
+        return self.prim_strncmp(E, x, args)
+
+    def prim_strlen(self, E, x, args):
+        l = self.cstr(E, args[0])
+        return [Outcome(ret=fs(len(l)) if l is not None else TOP)]
+
+    def materialize(self, E, path):
+        if path == 'G:doublebounceto.s':
+            return fs(('&', 'G:doublebounceto.s[0]'))
+        return TOP
+
+    def prim_qmail_open(self, E, x, args):
+        self.opened += 1
+        return [Outcome(ret=fs(0)), Outcome(ret=fs(-1))]
+
+    def prim_qmail_from(self, E, x, args):
+        E.set('$envfrom', fs(self.cstr(E, args[1]) if self.cstr(E, args[1]) is not None else '?'))
+        return [Outcome(ret=TOP)]
+
+    def prim_qmail_to(self, E, x, args):
+        v = args[1]
+        to = '?'
+        if v is not TOP and len(v) == 1:
+            (a,) = v
+            if a == ('&', 'G:doublebounceto.s[0]'):
+                to = 'doublebounceto'
+            elif self.sa and isinstance(a, tuple) and a[0] == '&' and str(a[1]).startswith(self.sa + '.s['):
+                c = self.cstr(E, v)
+                to = 'sender:' + c if c is not None else '?'
+        fr = g1(E, '$envfrom', 'unset')
+        self.envs.add((fr, to))
+        if not self.trace:
+            self.trace = E.trace.list()
+        return [Outcome(ret=TOP)]
+
+    def prim_qmail_close(self, E, x, args):
+        return [Outcome(ret=fs(('str', '')))]
+
+    def prim_unlink(self, E, x, args):
+        return [Outcome(ret=fs(0))]
+
+    def on_return(self, E, fn, val):
+        pass
+
+
+
 def run(ctx):
     db, rep = ctx.db, ctx.report
     prog = db.program('qmail-send')
@@ -118,32 +236,29 @@ def run(ctx):
     r1 = rep.rule('C14.1-bounce-envelope-table', 'R-TABLE', 'injectbounce: ordinary sender -> ("", sender); empty sender -> ("#@[]", doublebounceto); sender #@[] -> nothing injected, record discarded; exactly one sender and one recipient record; -@[] stripped first')
     attach(r1, ib, only={'ib:no-injection-for-the-triple-bounce-sender', 'ib:exactly-one-sender-and-one-recipient'})
     f = prog.fn('injectbounce', 'qmail-send.c')
-
-    def asg(var):
-        return [x for x in f.all_x() if x.k == 'asg' and x.op == '=' and (x.args[0].var or '').split('#')[0] == var]
-
-    def sender_guard(x):
-        for c, t in f.guards(x) or []:
-            cs = c.strip()
-            if cs.k == 'un' and cs.op == '*' and cs.args[0].src().endswith('sender.s'):
-                return t
-        return None
-    bs, br = asg('L:bouncesender'), asg('L:bouncerecip')
-    tab = {}
-    for x in bs:
-        tab.setdefault(sender_guard(x), {})['from'] = x.args[1].string
-    for x in br:
-        tab.setdefault(sender_guard(x), {})['to'] = x.args[1].src()
-    want = {True: {'from': '', 'to': 'sender.s'}, False: {'from': '#@[]', 'to': 'doublebounceto.s'}}
-    r1.check(tab == want, 'sender-class->(envelope-sender,recipient)', f.unit + ':injectbounce', 'extracted table %s, documented %s' % (tab, want))
-    qf, qt = f.calls('qmail_from'), f.calls('qmail_to')
-    r1.check(len(qf) == 1 and (qf[0].args[1].var or '').startswith('L:bouncesender') and len(qt) == 1 and (qt[0].args[1].var or '').startswith('L:bouncerecip'),
-             'envelope-uses-the-table-values', f.unit + ':injectbounce', 'qmail_from/qmail_to arguments')
-    # -@[] stripping precedes the use of sender
-    strip = [x for x in f.all_x() if x.k == 'asg' and x.op == '-=' and x.args[0].src().endswith('sender.len') and x.args[1].const == 4]
-    okst = bool(strip) and any(c.strip().k == 'bin' and '-@[]' in c.src() and t is True for c, t in f.guards(strip[0]) or []) and all(not f.can_reach(f.pos[a.id][0], f.pos[strip[0].id][0]) for a in bs + br)
-    r1.check(okst, 'VERP-suffix-stripped-before-the-sender-is-used', f.unit + ':injectbounce', 'sender.len -= 4 under a match of "-@[]" before the envelope values are chosen')
-    r1.expect_min(5)
+    SENDERS = ['', '#@[]', 'a@b', 'owner-@h-@[]', '-@[]', 'x-@[]', '#@[]x', 'a#@[]', '@[]']
+    n_env = 0
+    for snd in SENDERS:
+        H = EnvelopeHooks(snd)
+        eng = Engine(db, prog, H)
+        eng.run(f, {})
+        rep.count_states(eng.states, eng.transitions)
+        stripped = snd[:-4] if snd.endswith('-@[]') else snd
+        if stripped == '#@[]':
+            want = None
+        elif stripped == '':
+            want = ('#@[]', 'doublebounceto')
+        else:
+            want = ('', 'sender:' + stripped)
+        if H.getinfo < 1:
+            raise AnalysisBroken('injectbounce: getinfo() not reached')
+        got = sorted(H.envs, key=str)
+        ok = (got == [] and want is None and H.opened == 0) or (want is not None and got == [want])
+        n_env += 1
+        r1.check(ok, 'sender=%r->%s' % (snd, 'nothing injected' if want is None else '(from=%r,to=%s)' % want), f.unit + ':injectbounce',
+                 'explored envelopes %s (queue program started on %d paths); documented %s' % (got, H.opened, want), H.trace)
+    r1.check(n_env == len(SENDERS), 'sender-classes-explored', f.unit + ':injectbounce', '%d of %d' % (n_env, len(SENDERS)))
+    r1.expect_min(len(SENDERS) + 3)
 
     r2 = rep.rule('C14.2-bounce-record-lifetime', 'R-ORDER', 'bounce/<n> is removed only after the notice was queued (or discarded as a triple bounce); read failures latch qmail_fail; a crashed or failing queue program never counts as queued')
     attach(r2, ib, only={'ib:bounce-file-removed-only-after-notice-queued-or-triple-bounce', 'ib:returns-1-only-when-bounce-file-is-gone', 'ib:read-failure-latches-qmail_fail'})
